@@ -1597,6 +1597,12 @@ def driver_source(specs, status, src_root):
                          'else Except.ok (u, (rest, w.2 ++ [c])) | [] => Except.error Err.other) '
                          '(fun _ _ => Except.ok ()) (fromJ (argAt args 3))).map (fun w => (w.2, w.1.length)))')
             continue
+        if spec.get("group") == "Linking":
+            # `isinstance(x, IOutput)` / `isinstance(x, IInput)`: the list of the objects that are
+            imports.append(f"import FinamModel.Translated.{spec['lean']}")
+            cases.append(f'  | "{spec["lean"]}" => toJ (Tr.{spec["lean"]} (fromJ (argAt args 0)) (fromJ (argAt args 1)) '
+                         '(fun x => ((fromJ (argAt args 2)) : List Nat).contains x))')
+            continue
         if spec.get("group") == "AdapterInfo":
             # an Info is an integer id; the source answers from a table: (request, delivered) / (request, none) = it raises
             imports.append(f"import FinamModel.Translated.{spec['lean']}")
